@@ -346,6 +346,54 @@ def main(tier: str) -> int:
             chk.count("ephemeral_" + name)
             check_child(name, [t], child, max(L, depth_of(flat_names(t)[1])), {"operator": name, "tree": str(t), "eph": True})
 
+    # aimed: a wide shallow parent and a narrow deep one of about the same size, max_level = depth of the deeper parent: a transplant that
+    # is no larger than what it replaces can still make the tree deeper - the child stays within max_level
+    f1, f2, f3 = us._functional_set[1][0], us._functional_set[2][0], us._functional_set[3][0]
+    x0_, x1_ = us._terminal_set[0], us._terminal_set[1]
+    wide = Tree([f2, f3, f3, x0_, x1_, x0_, x1_, x0_, x1_])                       # (tern(tern(..), x1, x0) + x1): depth 3, 9 nodes
+    deep = Tree([f2, f1, f1, f1, x0_, x1_])                                      # (neg(neg(neg(x0))) + x1): depth 4, 6 nodes
+    wide3 = Tree([f3, f3, f2, x0_, x1_, x1_, x0_, f2, x0_, x1_, x1_])             # depth 3
+    deep3 = Tree([f1, f1, f2, f1, x0_, x1_])                                     # depth 4
+    for pa, pb in ((wide, deep), (deep, wide), (wide3, deep3), (wide, deep3)):
+        ml_ = max(depth_of(flat_names(pa)[1]), depth_of(flat_names(pb)[1]))
+        for s in range(150):
+            numba_seed(chk.seed * 1000 + 6000 + s)
+            for name in ("standard_crossover", "one_point_crossoverGP", "uniform_crossoverGP"):
+                arr = np.array([pa, pb], dtype=object)
+                child = getattr(X, name)(arr, np.ones(2), np.ones(2), ml_)
+                chk.count("aimed_depth_" + name)
+                chk.case(("aimed_depth", name, str(pa), str(pb), str(child)))
+                check_child(name, [pa, pb], child, ml_, {"operator": name, "parents": [str(pa), str(pb)], "max_level": ml_, "seed": chk.seed * 1000 + 6000 + s})
+
+    # ... and with a generator of FLOAT constants that has a small range: every node of a mutant is a node over the universal set - a
+    # function symbol or variable of the set, or a constant its generator can produce
+    from thefittest.base import EphemeralNode as _EN, UniversalSet as _US
+    from thefittest.base._tree import EphemeralConstantNode as _ECN
+    FLOATS = (0.5, 2.5, 7.0)
+
+    from thefittest.utils.random import randint as _randint
+
+    def half_steps():
+        return FLOATS[int(_randint(0, 3, 1)[0])]
+    usf = _US(tuple(use._functional_set[-1]), tuple(t for t in use._terminal_set if not isinstance(t, _EN)) + (_EN(half_steps),))
+    own = {id(n) for k, v in usf._functional_set.items() for n in v} | {id(t) for t in usf._terminal_set}
+    for s in range(150):
+        numba_seed(chk.seed + 4000 + s)
+        t = Tree.random_tree(usf, rng.randint(1, 4))
+        for name in ms:
+            try:
+                child = getattr(MU, name)(t, usf, 1.0, L)
+            except Exception as e:
+                chk.fail("a mutation raises on a well-formed tree (out-of-range index)", {"operator": name, "tree": str(t), "error": repr(e)[:160]},
+                         {"fn": name, "clause": "raises", "max_arity": max(flat_names(t)[1])})
+                continue
+            chk.count("float_constants_" + name)
+            chk.case(("float_constants", name, str(t), str(child)))
+            alien = [str(nd) for nd in child._nodes if not ((isinstance(nd, _ECN) and any(nd._value == f for f in FLOATS)) or id(nd) in own)]
+            if alien:
+                chk.fail("a mutation produced a node that is not over the universal set (neither one of its symbols nor a constant its generator produces)",
+                         {"operator": name, "tree": str(t), "child": str(child), "alien_nodes": alien[:3], "generator_range": list(FLOATS)}, {"fn": name, "clause": "closure"})
+
     # ------------------------------------------------------------------ initialisers
     for s in range(300 if tier == "quick" else 3000):
         numba_seed(chk.seed + 9000 + s)
